@@ -24,7 +24,7 @@ ASSUMPTIONS = [
     "with link faults enabled the clauses are checked only while the ASH link has not failed",
 ]
 PROBES = ["type.unicast", "type.multicast", "type.broadcast", "type.other_defined", "type.undefined", "join.allowed", "join.denied", "join.left", "join.left_denied",
-          "payload.empty", "payload.max", "rssi.negative", "faulty_link", "xiaomi_prefix"]
+          "payload.empty", "payload.max", "rssi.negative", "faulty_link", "xiaomi_prefix", "reconnect_other_version"]
 
 VERSIONS = list(range(4, 15))
 UNICAST, MULTICAST, BROADCAST = 0, 2, 4
@@ -54,6 +54,8 @@ def plan(tier):
     for V in VERSIONS:
         sweeps.append(("types", {"V": V, "sched": False}))
         sweeps.append(("joins", {"V": V, "sched": False}))
+    for V, then in ((13, [14]), (14, [13]), (14, [8, 14]), (4, [14, 7]), (8, [9]), (12, [14, 12])):
+        sweeps.append(("reconnect", {"V": V, "then": then, "sched": False}))
     return {
         "sweeps": sweeps,
         "exhaustive": "versions 4..14 x all 256 message-type values (boundary field values) and all update-status x decision pairs (defined values and two undefined ones)",
@@ -83,6 +85,8 @@ def run(scenario, params, tape, detail=False):
     def probe(n, k=1):
         probes[n] = probes.get(n, 0) + k
 
+    cur = {"V": V}
+
     def link_ok():
         return rig.ncp_ash.failed is None and not any(w == "failure" for (_t, _c, w) in rig.reset_notes)
 
@@ -91,6 +95,7 @@ def run(scenario, params, tape, detail=False):
 
     async def incoming(app, mtype, aps_fields, lqi, rssi, sender, binding, addridx, msg, eui=bytes(8)):
         nev[0] += 1
+        V = cur["V"]
         frame = enc_incoming(V, ncp.last_rsp_seq, mtype, enc_aps(*aps_fields), lqi, rssi, sender, binding, addridx, msg, eui)
         n0 = len(rig.packets)
         ncp.emit(frame, 0.0, "cb")
@@ -124,6 +129,7 @@ def run(scenario, params, tape, detail=False):
 
     async def tcjoin(app, nwk, eui, status, decision, parent):
         nev[0] += 1
+        V = cur["V"]
         frame = enc_tcjoin(V, ncp.last_rsp_seq, nwk, eui, status, decision, parent)
         j0, l0 = len(rig.joins), len(rig.leaves)
         ncp.emit(frame, 0.0, "cb")
@@ -160,6 +166,28 @@ def run(scenario, params, tape, detail=False):
                 aps = (0x0104, 0x0006 + mtype, 1 + k, 1, 0x0140, 0x1234 + mtype, mtype ^ 0x5A)
                 msg = (b"", b"\x01", bytes(range(40)), bytes([0x7E, 0x11, 0x13, 0x1A] * 20))[k]
                 await incoming(app, mtype, aps, (0, 255, 1, 128)[k], (-128, 127, 0, -1)[k], (0x0001, 0xFFF7, 0xABCD, 0x0000)[k], k, 0xFF - k, msg)
+        elif scenario == "reconnect":
+            # one application object, two sticks: callbacks on an NCP of version V, then disconnect and connect again to an NCP of version V2
+            # (other side of the v14 field-order boundary included); translation must follow the version of the current connection
+            async def batch():
+                for k, mtype in enumerate((UNICAST, MULTICAST, BROADCAST, 1, UNICAST)):
+                    aps = (0x0104, 0x0006 + k, 1 + k, 1, 0x0140, 0x1234 + k, 0x21 + k)
+                    await incoming(app, mtype, aps, 200 + k, -40 - k, 0x4000 + k, k, 0xFF - k, (b"", b"\x01\x02", bytes(range(30)), b"\x7e\x11", b"z")[k])
+                await tcjoin(app, 0x1234, bytes([1, 2, 3, 4, 5, 6, 7, 8]), 0, 0, 0x0000)
+                await tcjoin(app, 0x1234, bytes([1, 2, 3, 4, 5, 6, 7, 8]), DEVICE_LEFT, 0, 0x0000)
+
+            await batch()
+            for V2 in params["then"]:
+                probe("reconnect_other_version")
+                await app.disconnect()
+                await asyncio.sleep(1.0)
+                ncp.set_version(V2)
+                cur["V"] = V2
+                ncp.auto_confirm = True
+                await app.connect()
+                rig.ezsp = app._ezsp
+                await app.start_network()
+                await batch()
         elif scenario == "joins":
             for status in (0, 1, 2, 3, 4, 5, 7, 6, 0x55):
                 for decision in (0, 1, 2, 3, 9):
